@@ -33,11 +33,14 @@ EXTENDS Naturals, Sequences, FiniteSets, TLC, Json, IOUtils
 CONSTANTS RepointRoles,   \* roles re-pointed by Copy
           MaxEdits,       \* edits after the copy
           MaxEditsFile,   \* ... when the whole file was copied
-          InsertFront,    \* insert at position 0 as well as at the end
+          Wide,           \* wider alphabet: insert at position 0 as well as at the
+                          \* end, every kind-carrying scalar for chkind, one
+                          \* (refused) removal of a data symbol per table
           NewNames,       \* names used by rename / add
           OpKinds,        \* enabled edit operations
           ProgIds,        \* members of the family that are explored
-          SimMode         \* one random operation per step (tlc -simulate)
+          SimMode,        \* one random operation per step (tlc -simulate)
+          LoopVarByName   \* broken Copy: loop variables re-pointed by name
 
 AllRoles  == {"ref", "loopvar", "call", "ret", "kind", "shape", "init", "ifc"}
 NodeRoles == {"ref", "loopvar", "call", "ret"}
@@ -118,8 +121,10 @@ UseRecs(S, p, s, q) == {[p |-> p, s |-> s, r |-> q[j].role, i |-> RoleIdx(q, j),
 \* (U = the uses without the identity reached, no = the node identities: both
 \* derived, kept in the record so that they are computed once per side)
 Strip(u) == {[p |-> x.p, s |-> x.s, r |-> x.r, i |-> x.i, nm |-> x.nm] : x \in u}
+\* s = the symbol objects of the side's tables, st = which table (path of its
+\* scope) each of them lives in
 EmptySide == [tw |-> FALSE, t |-> 0, D |-> {}, N |-> {}, u |-> {}, U |-> {}, n |-> {},
-              no |-> {}, s |-> {}]
+              no |-> {}, s |-> {}, st |-> {}]
 SideObs(S, root) ==
   IF root = 0 THEN EmptySide
   ELSE LET W  == TCToSet(Walk(S, root, <<>>))
@@ -140,6 +145,7 @@ SideObs(S, root) ==
            U  == Strip(u)
        IN [tw |-> TRUE, D |-> D, N |-> N, u |-> u, U |-> U, n |-> n,
            no |-> {x.o : x \in n}, s |-> sy,
+           st |-> UNION {{[o |-> y, tp |-> w.p] : y \in TabSyms(S, w.id)} : w \in W},
            \* the model's "written text" is the render itself
            t |-> [D |-> D, N |-> N, U |-> U]]
 ObsOf(M) == [O |-> SideObs(M.S, M.rO), C |-> SideObs(M.S, M.rC),
@@ -162,13 +168,17 @@ VNoShared(ob) ==
 \* OwnSymbols: no use of one tree reaches a symbol object of a table of the
 \* other tree, the tables share no symbol object; right after Copy every use
 \* of the copy whose original resolved into a copied table resolves into the
-\* copy's tables.
+\* CORRESPONDING table of the copy (the scope at the same path) - with
+\* shadowed names a use must not slip to a same-named symbol of another scope.
+SameTable(ob, yo, xc) == \E a \in ob.O.st : \E b \in ob.C.st :
+                            a.o = yo /\ b.o = xc /\ a.tp = b.tp
 VOwn(ob, first) ==
   LET badC == {x \in ob.C.u : x.tgt \in ob.O.s}
       badO == {x \in ob.O.u : x.tgt \in ob.C.s}
       unm  == IF ~ first THEN {}
-              ELSE {x \in ob.C.u : x.tgt \notin ob.C.s /\
-                      \E y \in ob.O.u : Site(y) = Site(x) /\ y.tgt \in ob.O.s}
+              ELSE {x \in ob.C.u :
+                      \E y \in ob.O.u : Site(y) = Site(x) /\ y.tgt \in ob.O.s
+                                         /\ ~ SameTable(ob, y.tgt, x.tgt)}
       shs  == ob.O.s \cap ob.C.s
       bad  == {[side |-> "C", p |-> x.p, s |-> x.s, r |-> x.r, i |-> x.i, nm |-> x.nm]
                  : x \in badC \cup unm}
@@ -217,8 +227,14 @@ EffCopy(M, op) ==
          NMap(n) == nn + (CHOOSE i \in DOMAIN W : W[i].id = n)
          InY(y)  == \E i \in DOMAIN Y : Y[i] = y
          SMap(y) == ns + (CHOOSE i \in DOMAIN Y : Y[i] = y)
+         \* (broken variant) the outermost copied scope that has a symbol of
+         \* that name wins, whatever scope the loop variable belongs to
+         ByName(y) == LET c == {z \in TCToSet(Y) : S.syms[z].name = S.syms[y].name}
+                      IN IF c = {} THEN y ELSE SMap(TCSetMin(c))
          Remap(q) == [j \in DOMAIN q |->
-                        IF q[j].role \in RepointRoles /\ InY(q[j].sym)
+                        IF LoopVarByName /\ q[j].role = "loopvar"
+                        THEN [role |-> q[j].role, sym |-> ByName(q[j].sym)]
+                        ELSE IF q[j].role \in RepointRoles /\ InY(q[j].sym)
                         THEN [role |-> q[j].role, sym |-> SMap(q[j].sym)] ELSE q[j]]
          newNodes == [i \in DOMAIN W |->
                         LET n == S.nodes[W[i].id]
@@ -371,14 +387,15 @@ SideOps(M, sd) ==
   \cup (IF "remove" \notin OpKinds THEN {} ELSE
    UNION {{[name |-> "remove", side |-> sd, scope |-> w.p, sym |-> nm(y)]
              : y \in {z \in TabSyms(S, w.id) : S.syms[z].cls # "data"}
-                     \cup MinOf({z \in TabSyms(S, w.id) : S.syms[z].cls = "data"})}
+                     \cup (IF Wide THEN MinOf({z \in TabSyms(S, w.id) : S.syms[z].cls = "data"})
+                           ELSE {})}
           : w \in Sc})
   \cup (IF "detach" \notin OpKinds THEN {} ELSE
    {[name |-> "detach", side |-> sd, path |-> w.p]
       : w \in {v \in W : v.p # <<>> /\ S.nodes[S.nodes[v.id].par].kind \in DetachParents}})
   \cup (IF "insert" \notin OpKinds THEN {} ELSE
    UNION {{[name |-> "insert", side |-> sd, path |-> w.p, pos |-> ps, sym |-> nm(y)]
-             : ps \in (IF InsertFront THEN {0} ELSE {}) \cup {Len(Kids(S, w.id))},
+             : ps \in (IF Wide THEN {0} ELSE {}) \cup {Len(Kids(S, w.id))},
                y \in UNION {MinOf(PlainScalars(S, t)) : t \in Chain(S, w.id)}}
           : w \in {v \in W : S.nodes[v.id].kind \in {"routine", "sched"}}})
   \cup (IF "chshape" \notin OpKinds THEN {} ELSE
@@ -387,9 +404,12 @@ SideOps(M, sd) ==
           : w \in Sc})
   \cup (IF "chkind" \notin OpKinds THEN {} ELSE
    UNION {{[name |-> "chkind", side |-> sd, scope |-> w.p, sym |-> nm(y), dep |-> z]
-             : y \in {v \in TabSyms(S, w.id) : S.syms[v].cls = "data" /\ ~ S.syms[v].arr /\
-                        ~ S.syms[v].const /\ S.syms[v].ifc \in {"local", "arg"} /\
-                        \E j \in DOMAIN S.syms[v].deps : S.syms[v].deps[j].role = "kind"}
+             : y \in (LET ks == {v \in TabSyms(S, w.id) : S.syms[v].cls = "data" /\
+                                   ~ S.syms[v].arr /\ ~ S.syms[v].const /\
+                                   S.syms[v].ifc \in {"local", "arg"} /\
+                                   \E j \in DOMAIN S.syms[v].deps :
+                                        S.syms[v].deps[j].role = "kind"}
+                      IN IF Wide THEN ks ELSE MinOf(ks))
                      \cup MinOf(PlainScalars(S, w.id)),
                z \in ConstNames(S, w.id)}
           : w \in Sc})
